@@ -329,6 +329,16 @@ func init() {
 	// ---- static routes ----
 	var pcr *PreConfigRoute
 	vReg("route new", func(a []string) string { pcr = NewPreConfigRoute(); return "ok" })
+	// route cfg <hex yaml>: the table is built the way the program builds it at start-up, from the `route:` entries of
+	// the first proxy of a YAML configuration (several dests may share one next hop)
+	vReg("route cfg", func(a []string) string {
+		cfg, err := loadConfigFromReader(strings.NewReader(unhx(a[0])))
+		if err != nil || len(cfg.Proxies) == 0 {
+			return "err"
+		}
+		pcr = createPreConfigRoute(cfg.Proxies[0])
+		return "ok"
+	})
 	vReg("route add", func(a []string) string {
 		if err := pcr.AddRouteItem(unhx(a[0]), unhx(a[1]), unhx(a[2])); err != nil {
 			return "err"
